@@ -200,8 +200,11 @@ BATCH = 64           # utils.inv / adjugate / det switch to closed formulas at t
 COND_MAX_BATCH = 100.0
 
 
+ENTRY_MIN = 1e-6   # every matrix of a (collection of) transformation(s) has an entry at least this large
+
+
 def cond_ok(m: np.ndarray) -> bool:
-    if not np.all(np.isfinite(m)) or np.max(np.abs(m)) > ENTRY_MAX or np.max(np.abs(m)) < 0.05:
+    if not np.all(np.isfinite(m)) or np.max(np.abs(m)) > ENTRY_MAX or np.min(np.max(np.abs(m), axis=(-1, -2))) < ENTRY_MIN:
         return False
     try:
         c = np.linalg.cond(m)
@@ -295,13 +298,13 @@ class Gen:
                 self.T[s] = {"m": np.array(m, float), "fshape": ()}
             elif c < 0.55 or d == 1:
                 m = self.inv_matrix(n)
-                k_ = rng.choice([1, 1, 1, -1, 2, 0.5])   # the same transformation, another representative of MODERATE
+                k_ = rng.choice([1, 1, 1, -1, 2, 0.5, 1, 1e-3, 250.0])   # the same transformation, another representative of MODERATE
                 # scale: with a factor 1000 the inverse has entries ~1e-4, images of 3D polygons get coordinates whose
                 # triple products fall below the library's absolute tolerance 1e-8 and join() raises -- representative
                 # independence is C03's subject, not a group law
                 if k_ != 1:
                     m = [[x * k_ for x in row] for row in m]
-                s = self.add_recipe("transf", [m], {"dt": "f" if k_ == 0.5 else rng.choice(["f", "i"])})
+                s = self.add_recipe("transf", [m], {"dt": "f" if k_ in (0.5, 1e-3, 250.0) else rng.choice(["f", "i"])})
                 self.T[s] = {"m": np.array(m, float), "fshape": ()}
             elif c < 0.7:
                 v = [rng.randint(-3, 3) for _ in range(d)]
@@ -414,6 +417,13 @@ class Gen:
                             break
                     ms.append(m_)
             ms = [ms[i % len(ms)] for i in range(k)]
+            if rng.random() < 0.3:
+                # some elements given by representatives of another scale (pixel -> metre conversions folded into the
+                # matrix): determinants of 1e-12 .. 1e8 next to ordinary ones. Polytopes are protected from the
+                # small ones by the volume bound in cok(); everything else acts scale-free.
+                for j_ in rng.sample(range(k), min(k, rng.choice([1, 2, 5]))):
+                    f_ = rng.choice([1e-3, 1e-2, 100.0])
+                    ms[j_] = [[x * f_ for x in row] for row in ms[j_]]
             frac = any(isinstance(x, float) and x != int(x) for m_ in ms for row in m_ for x in row)
             s = self.add_recipe("transfcoll", [ms], {"dt": "f" if frac else rng.choice(["f", "i", "i"])})
             self.T[s] = {"m": np.array(ms, float), "fshape": (k,)}
